@@ -172,11 +172,15 @@ impl FmtAttribute {
         }
 
         let expr = match param.arg {
-            // (3) And either exactly one positional argument is specified.
-            Some(parsing::Argument::Integer(_)) | None => (self.args.len() == 1)
+            // (3) And either exactly one positional argument is specified (and it is the one the
+            //     formatting parameter refers to).
+            Some(parsing::Argument::Integer(0)) | None => (self.args.len() == 1)
                 .then(|| self.args.first())
                 .flatten()
                 .map(|a| a.expr.clone()),
+
+            // Index doesn't denote the only argument, so let the compiler report it.
+            Some(parsing::Argument::Integer(_)) => None,
 
             // (4) Or the formatting parameter's name refers to some outer binding.
             Some(parsing::Argument::Identifier(name)) if self.args.is_empty() => {
